@@ -1,4 +1,31 @@
-From Coq Require Import ZArith List Bool Lia.
-Require Import SkV.Lib.Base SkV.C15.Model.
+(* C15 open finding F-C15-2: the model follows the code, and the code's long -> nested replaces the
+   dimension identifiers by var_i.  The property sentence "the original column names come back
+   whenever every container on the way carries names" (the long table does carry them, in dim_id)
+   is therefore FALSE of the faithful model: witnesses by computation. *)
+From Coq Require Import ZArith List Bool.
+Require Import SkV.Lib.Base SkV.C15.Model SkV.C15.Long.
 Import ListNotations.
 Open Scope Z_scope.
+
+(* a one-column panel named "a" comes back named "var_0" *)
+Lemma names_through_long_refuted :
+  exists x : nested Z,
+    wf_nestedb 1 1 2 x = true /\
+    n_cols (long_to_nested None (nested_to_long x)) <> sort_names (n_cols x).
+Proof.
+  exists (mkN KSeries [NStr [97]] [[[1; 2]]]). split; [reflexivity|]. vm_compute. discriminate.
+Qed.
+
+(* eleven default-named columns: the identifiers sort as var_0, var_1, var_10, var_2, ... so the
+   values of var_10 come back under the name var_2 *)
+Lemma default_names_through_long_refuted :
+  exists x : nested Z,
+    wf_nestedb 1 11 2 x = true /\ n_cols x = default_names 11 /\
+    n_cols (long_to_nested None (nested_to_long x)) = n_cols x /\
+    nth 2 (hd [] (n_rows (long_to_nested None (nested_to_long x)))) [] = nth 10 (hd [] (n_rows x)) [] /\
+    nth 2 (hd [] (n_rows (long_to_nested None (nested_to_long x)))) [] <> nth 2 (hd [] (n_rows x)) [].
+Proof.
+  exists (mkN KSeries (default_names 11)
+            [map (fun j => [10 * j; 10 * j + 1]) [0; 1; 2; 3; 4; 5; 6; 7; 8; 9; 10]]).
+  vm_compute. repeat split. discriminate.
+Qed.
